@@ -60,7 +60,9 @@ CHECKS = {
         text="With -stab and no criterion the set of optimal classes is the whole feasible set of "
              "the integer program; it is compared, in both directions, with the set of valid "
              "matchings without SPA-STL blocking pair computed from the definition; with "
-             "maxsize/minsize the printed size is compared with the reference extremum.",
+             "maxsize/minsize the printed size is compared with the reference extremum. Also: "
+             "re-solve histories (solve,get,get,solve,get) on one Solver and two Solvers alive "
+             "at once, judged by the same oracle.",
         design_ref="DESIGN.md 5 C05",
         technique="bounded-exhaustive enumeration of all 0/1 points of the real integer program vs blocking-pair definition",
         note=LP_NOTE + HIST_NOTE),
@@ -110,7 +112,9 @@ CHECKS = {
         category="exploration",
         text="All 2^n tie-indicator vectors for n up to the bound, first/second side, 2/3-agent "
              "files: real writer -> real create_instance -> real Solver; writer text and reader ranks "
-             "compared with the run structure implied by the indicators.",
+             "compared with the run structure implied by the indicators; plus two second-side "
+             "lists over the same agents (all pairs of tie vectors) and an 11 x 11 file with "
+             "ids that concatenate equally.",
         design_ref="DESIGN.md 5 C13",
         technique="bounded-exhaustive input enumeration",
         note="Fixed permutation as list content; bounded list length."),
@@ -126,14 +130,18 @@ CHECKS = {
         text="Exhaustive enumeration of position assignments (all for <=3 criteria over a domain "
              "around 1..9, all 9! permutations, all single corruptions for 4..9 criteria), flag "
              "permutations and extras vectors through Solver(argv) with a non-existent file, plus "
-             "real runs checking the order of the reported criteria.",
+             "real runs checking the order of the reported criteria (whole criterion line incl. "
+             "cut-off), on a feasible instance, on an instance without feasible matching and "
+             "under an injected Not Solved / unknown status at the first solve (prefix rule).",
         design_ref="DESIGN.md 5 C16",
         technique="bounded-exhaustive configuration enumeration",
         note="Refusal = SystemExit(2) before FileNotFoundError."),
     "C17": dict(
         category="exploration",
         text="create_linear_distribution on n in 1..N x a dense finite grid of skews against an "
-             "exact rational reference; all laws of the statement checked.",
+             "exact rational reference; all laws of the statement checked; plus, at the RNG seam, "
+             "every first-side list of real generator runs must be drawn with exactly these "
+             "weights.",
         design_ref="DESIGN.md 5 C17",
         technique="grid enumeration vs exact rational reference",
         note="Finite grid, not the continuum."),
@@ -143,7 +151,8 @@ CHECKS = {
              "every RNG answer sequence; every distinct file is given, as written, to the real "
              "solver under the documented flags in LP mode (every optimal class the back end may "
              "return) and in brute-force mode; oracles: model equals file content (own parser), "
-             "valid matching / correct verdict, exact brute-force statistics.",
+             "valid matching / correct verdict, exact brute-force statistics. Larger vectors go "
+             "through loading + brute force only.",
         design_ref="DESIGN.md 5 C09",
         technique="stateless exhaustive exploration over RNG answers composed with exploration over MILP answers",
         note=LP_NOTE + " RNG owned by vf/rngenv.py (see C08)."),
@@ -170,8 +179,11 @@ CHECKS = {
         category="model_checking",
         text="Explicit-state BFS over call histories on a live Solver: states are digests of the "
              "whole object graph reached by replaying the history on a fresh real object; every "
-             "solve branches over every optimal class. Oracle: getters idempotent and non-failing "
-             "between solves; status and criterion values unchanged by re-solving; matching valid.",
+             "solve branches over every optimal class; with a time limit a 'tick' event lets "
+             "virtual time pass. Oracle: at the end of every history each getter returns the text "
+             "it returns when called first after that history's last solve (per-getter fresh "
+             "replays); no getter raises; status and criterion values unchanged by re-solving; "
+             "matching valid.",
         design_ref="DESIGN.md 5 C18",
         technique="explicit-state BFS over operation histories of the real object with state hashing",
         note="LP mode, timeLimit=None, depth and number of solves bounded as in the evidence."),
